@@ -408,7 +408,14 @@ impl RuntypeName {
     fn print_name_for_js_codegen(&self, all_names: &[&RuntypeUUID]) -> String {
         match self {
             RuntypeName::Address(addr) => addr.ts_identifier(all_names),
-            RuntypeName::SemtypeRecursiveGenerated(n) => format!("RecursiveGenerated{}", n),
+            RuntypeName::SemtypeRecursiveGenerated(n) => {
+                // a helper introduced for recursion must not take the name of a declared type
+                let mut name = format!("RecursiveGenerated{}", n);
+                while Self::is_declared_name(all_names, &name) {
+                    name.push('_');
+                }
+                name
+            }
             RuntypeName::EnumItem {
                 address: enum_type,
                 member_name,
@@ -421,6 +428,16 @@ impl RuntypeName {
 
     fn is_builtin(&self) -> bool {
         matches!(self, RuntypeName::BuiltIn(_))
+    }
+
+    /// is `candidate` the name some declaration of the project carries (and may therefore be printed under)?
+    fn is_declared_name(all_names: &[&RuntypeUUID], candidate: &str) -> bool {
+        all_names.iter().any(|name| match &name.ty {
+            RuntypeName::Address(address) => address.name == candidate,
+            RuntypeName::EnumItem { .. }
+            | RuntypeName::SemtypeRecursiveGenerated(_)
+            | RuntypeName::BuiltIn(_) => false,
+        })
     }
 }
 
@@ -484,10 +501,12 @@ impl RuntypeUUID {
                     // two different instantiations can print the same argument text (a user type called like a
                     // built-in, `Box<Function>` next to `Box<() => void>`): number the later one
                     let mut n = type_with_args_count;
+                    // ... and `Box<string>` must not be printed under the name of a declared type `Box_string`
                     while ctx
                         .type_with_args_names
                         .values()
                         .any(|name| name == &final_name)
+                        || RuntypeName::is_declared_name(ctx.all_names, &final_name)
                     {
                         final_name = format!("{}_instance_{}", base, n);
                         n += 1;
